@@ -1049,8 +1049,10 @@ Section Handlers.
         else if tag_is n ["tbody"; "tfoot"; "thead"] then R (set_ph inTableBodyP (insert_element n a (clear_to_table s)))
         else if tag_is n ["td"; "th"; "tr"] then RT t (set_ph inTableBodyP (insert_element (S' "tbody") [] (clear_to_table s)))
         else if tag_is n ["table"] then
+          (* reprocess iff a table element was in table scope (repaired in /repo; it used to test parser.innerHTML) *)
+          let insc := in_scope "table" VTable s in
           let s := call (ph s) (KEnd (S' "table")) s in
-          match inner s with Some _ => R s | None => RT t s end
+          if insc then RT t s else R s
         else if tag_is n ["style"; "script"] then rec inHeadP t s
         else if tag_is n ["input"] then
           match lower_attr "type" a with
@@ -1089,7 +1091,7 @@ Section Handlers.
       if ign then R s else RT t s in
     match t with
     | KChars _ => rec inBodyP t s
-    | KSpace x => R (insert_text_tree x s)
+    | KSpace _ => rec inBodyP t s          (* in-body rules for whitespace too (repaired in /repo) *)
     | KComment' c => R (insert_comment_top c s)
     | KDoctype' _ _ _ _ => R s
     | KStart n a sc =>
@@ -1196,7 +1198,7 @@ Section Handlers.
   Definition h_in_cell (t : ttok) (s : ps) : ps * option ttok :=
     match t with
     | KChars _ => rec inBodyP t s
-    | KSpace x => R (insert_text_tree x s)
+    | KSpace _ => rec inBodyP t s          (* in-body rules for whitespace too (repaired in /repo) *)
     | KComment' c => R (insert_comment_top c s)
     | KDoctype' _ _ _ _ => R s
     | KStart n a sc =>
